@@ -445,7 +445,7 @@ A0 = [
     const(""), const("a"), const("b"), const("x"), const("red"), const("1"), const("1.5"), const(" 1 "), const("é"),
     const("１", "fullwidth-1"),
     const("1/0"), const("1/2"), const("nan"), const("Infinity"), const("1+2j"), const("QQ=="), const("eA=="), const("YWI="),
-    const("QQ"), const("QQ==\n", "QQ==\\n"), const("\n", "LF"), const("1\n", "1\\n"), const("a\n", "a\\n"), const("QQ=Q"), const("=QQ="), const("Q==="), const("2020-01-01"), const("10:20:30"),
+    const("QQ"), const("QQ==\n", "QQ==\\n"), const("\n", "LF"), const("1\n", "1\\n"), const("a\n", "a\\n"), const("QQ=Q"), const("YWJj\ud800", "YWJj+lone-surrogate"), const("=QQ="), const("Q==="), const("2020-01-01"), const("10:20:30"),
     const("2020-01-01T10:20:30"), const("zz"), const("[a-z]+"), const("("), const("a{99999999999999999999}"), const("127.0.0.1"),
     const("12345678-1234-5678-1234-567812345678"),
     const(b""), const(b"x"), const(bytearray(b"x")),
